@@ -347,10 +347,11 @@ bound_by = cs.bound_by
 
 
 def scope_analysis(code: str) -> list[dict]:
-    """Problems of one module: eager uses not bound by an earlier statement; annotation names bound
-    nowhere; imported names re-bound by a later class or assignment."""
+    """Problems of one module: eager uses not bound by an earlier statement; annotation names (and
+    names in the bodies of lambdas, which run later) bound nowhere; imported names re-bound by a
+    later class or assignment.  Hiding inside class bodies is `classscope.class_scope_problems`."""
     tree = ast.parse(code)
-    future = any(isinstance(s, ast.ImportFrom) and s.module == "__future__" and any(a.name == "annotations" for a in s.names) for s in tree.body)
+    future = cs.has_future_annotations(tree)
     all_bound: set[str] = set()
     for s in tree.body:
         all_bound.update(bound_by(s))
@@ -358,70 +359,97 @@ def scope_analysis(code: str) -> list[dict]:
     bound: set[str] = set()
     imported: dict[str, str] = {}
 
+    def N(node):
+        return names_in(node, lambdas=False)
+
+    def A(node):
+        return annotation_names(node, lambdas=False)
+
     def eager(names, where, local=(), use="eager"):
         for n in names:
             if n in bound or n in BUILTINS or n in local:
                 continue
             probs.append({"mechanism": "order" if n in all_bound else "missing_import", "name": n, "where": where, "use": use})
 
-    def deferred(names, where, local=()):
+    def deferred(names, where, use="annotation"):
         for n in names:
             if n in all_bound or n in BUILTINS:
                 continue
-            probs.append({"mechanism": "missing_import", "name": n, "where": where, "use": "annotation"})
+            probs.append({"mechanism": "missing_import", "name": n, "where": where, "use": use})
+
+    def late(node, where):  # the body of a lambda runs when it is called: module scope, everything defined
+        deferred(cs.lambda_names(node), where, "lambda_body")
 
     def annotation(node, where, local=()):
         if future:
-            deferred(annotation_names(node), where)
+            deferred(A(node), where)
         else:
-            eager([n for n in annotation_names(node)], where, local, "annotation")
+            eager(A(node), where, local, "annotation")
+        late(node, where)
 
     def base(b, cname):
         if isinstance(b, ast.Subscript):
-            eager(names_in(b.value), f"base of {cname}", use="base_class")
-            eager(annotation_names(b.slice), f"generic base argument of {cname}", use="generic_base_argument")
+            eager(N(b.value), f"base of {cname}", use="base_class")
+            eager(A(b.slice), f"generic base argument of {cname}", use="generic_base_argument")
         else:
-            eager(names_in(b), f"base of {cname}", use="base_class")
+            eager(N(b), f"base of {cname}", use="base_class")
+        late(b, f"base of {cname}")
+
+    def class_body(c: ast.ClassDef, qual: str) -> None:
+        local: set[str] = set()
+        for b in c.body:
+            if isinstance(b, ast.AnnAssign) and isinstance(b.target, ast.Name):
+                if b.value is not None:  # the value is evaluated and bound first, then (without the future import) the annotation
+                    eager(N(b.value), f"default in {qual}", local, "default")
+                    late(b.value, f"default in {qual}")
+                    local.add(b.target.id)
+                annotation(b.annotation, f"annotation in {qual}", local)
+            elif isinstance(b, ast.Assign):
+                eager(N(b.value), f"assignment in {qual}", local, "class_assignment")
+                late(b.value, f"assignment in {qual}")
+                local.update(t.id for t in b.targets if isinstance(t, ast.Name))
+            elif isinstance(b, (ast.FunctionDef, ast.AsyncFunctionDef)):
+                for d in b.decorator_list:
+                    eager(N(d), f"decorator in {qual}", local)
+                    late(d, f"decorator in {qual}")
+                local.add(b.name)
+            elif isinstance(b, ast.ClassDef):
+                for bb in b.bases:
+                    eager(N(bb), f"base of nested {b.name}", local)
+                    late(bb, f"base of nested {b.name}")
+                local.add(b.name)
+                class_body(b, qual + "." + b.name)  # own namespace; the enclosing class's is not visible
+            elif isinstance(b, ast.Expr) and not isinstance(b.value, ast.Constant):
+                eager(N(b.value), f"statement in {qual}", local, "statement")
+                late(b.value, f"statement in {qual}")
 
     for s in tree.body:
         if isinstance(s, ast.ClassDef):
             for d in s.decorator_list:
-                eager(names_in(d), f"decorator of {s.name}", use="decorator")
+                eager(N(d), f"decorator of {s.name}", use="decorator")
+                late(d, f"decorator of {s.name}")
             for b in s.bases:
                 base(b, s.name)
             for k in s.keywords:
-                eager(names_in(k.value), f"class keyword of {s.name}", use="class_keyword")
-            local: set[str] = set()
-            for b in s.body:
-                if isinstance(b, ast.AnnAssign):
-                    annotation(b.annotation, f"annotation in {s.name}", local)
-                    if b.value is not None:
-                        eager(names_in(b.value), f"default in {s.name}", local, "default")
-                        if isinstance(b.target, ast.Name):
-                            local.add(b.target.id)
-                elif isinstance(b, ast.Assign):
-                    eager(names_in(b.value), f"assignment in {s.name}", local, "class_assignment")
-                    local.update(t.id for t in b.targets if isinstance(t, ast.Name))
-                elif isinstance(b, (ast.FunctionDef, ast.AsyncFunctionDef)):
-                    for d in b.decorator_list:
-                        eager(names_in(d), f"decorator in {s.name}", local)
-                    local.add(b.name)
-                elif isinstance(b, ast.ClassDef):
-                    for bb in b.bases:
-                        eager(names_in(bb), f"base of nested {b.name}", local)
-                    local.add(b.name)
+                eager(N(k.value), f"class keyword of {s.name}", use="class_keyword")
+                late(k.value, f"class keyword of {s.name}")
+            class_body(s, s.name)
         elif isinstance(s, ast.AnnAssign):
             # `X: TypeAlias = <type>`: the right-hand side is evaluated
             if s.value is not None:
-                eager(annotation_names(s.value) if isinstance(s.annotation, ast.Name) and s.annotation.id == "TypeAlias" else names_in(s.value), "alias right-hand side", use="alias_rhs")
+                eager(A(s.value) if isinstance(s.annotation, ast.Name) and s.annotation.id == "TypeAlias" else N(s.value), "alias right-hand side", use="alias_rhs")
+                late(s.value, "alias right-hand side")
             annotation(s.annotation, "module-level annotation")
         elif isinstance(s, ast.Assign):
-            eager(annotation_names(s.value), "alias right-hand side", use="alias_rhs")
+            eager(A(s.value), "alias right-hand side", use="alias_rhs")
+            late(s.value, "alias right-hand side")
         elif isinstance(s, ast.Expr):
-            eager(names_in(s.value), "statement", use="statement")
+            eager(N(s.value), "statement", use="statement")
+            late(s.value, "statement")
         elif isinstance(s, (ast.FunctionDef, ast.AsyncFunctionDef)):
             for d in s.decorator_list:
-                eager(names_in(d), f"decorator of {s.name}")
+                eager(N(d), f"decorator of {s.name}")
+                late(d, f"decorator of {s.name}")
         for n in bound_by(s):
             if n in imported and not isinstance(s, (ast.Import, ast.ImportFrom)):
                 probs.append({"mechanism": "shadowed_name", "name": n, "where": f"{type(s).__name__} re-binds the name imported from {imported[n]}", "use": "rebinding"})
@@ -713,8 +741,9 @@ class Buckets:
 BUCKETS = Buckets()
 
 
-def shadow_classification(p: dict, kind: str, seen: str, inp: dict, code: str) -> dict:
+def shadow_classification(p: dict, kind: str, seen: str, inp: dict, code: str, shown: str = "static") -> dict:
     return {
+        "shown_as": shown,
         "oracle": "module_binding",
         "mechanism": "shadowed_name",
         "use": "member_hides_name",
@@ -776,21 +805,22 @@ def oracle_module(ck: Check, camp, inp: dict, code: str, kind: str, executable: 
                 buckets.add(ev, inp, code)
                 continue
             want = "consumer" if ev.get("consumer") else "import"
-            cands = [i for i, p in enumerate(hid) if p["top"] == ev["top"] and p["observed_at"] == want and p["effect"] in ("exception", "value_dependent")]
+            cands = [i for i, p in enumerate(hid) if p["top"] == ev["top"] and p["observed_at"] == want]
+            cands.sort(key=lambda i: hid[i]["effect"] != "exception")  # the certain raise first
             if cands:  # an exception of a class whose namespace hides a name its annotations/eager expressions use
                 demonstrated.update(cands)
                 p = hid[cands[0]]
-                failures.append((shadow_classification(p, kind, "static+dynamic", inp, code),
+                failures.append((shadow_classification(p, kind, "static+dynamic", inp, code, "exception"),
                                  f"{ev['text']} at {ev['where']}: member {p['name']!r} of {p['cls']} ({p['hider_binding']}) hides the name {p['name']} used by the {p['use_kind']} of {p['cls']}.{p['user']}"))
             else:
                 disp = buckets.add(ev, inp, code)
                 camp.hit("exception_not_name_binding:" + disp)
         for s in obs["silent"]:
-            cands = [i for i, p in enumerate(hid) if p["cls"] == s["cls"] and p["user"] == s["member"] and p["phase"] == "class_creation" and p["effect"] in ("silent", "value_dependent")]
+            cands = [i for i, p in enumerate(hid) if p["cls"] == s["cls"] and p["user"] == s["member"] and p["phase"] == "class_creation" and p["effect"] in ("passed_on", "value_dependent")]
             if cands:
                 demonstrated.update(cands)
                 p = hid[cands[0]]
-                failures.append((shadow_classification(p, kind, "static+dynamic", inp, code),
+                failures.append((shadow_classification(p, kind, "static+dynamic", inp, code, "differing_resolution"),
                                  f"{s['consumer']} resolves {s['cls']}.{s['member']} to {s['resolved']} (module scope: {s['module_scope']}): member {p['name']!r} ({p['hider_binding']}) hides the name"))
             else:
                 ck.disagree(camp, dict(inp, code=code), "static class-scope analysis: nothing hidden for this member", s)
@@ -800,7 +830,7 @@ def oracle_module(ck: Check, camp, inp: dict, code: str, kind: str, executable: 
             if cands:
                 demonstrated.update(cands)
                 if not any(c["mechanism"] == "shadowed_name" and c["name"] == h["name"] for c, _ in failures):
-                    failures.append((shadow_classification(hid[cands[0]], kind, "static+dynamic", inp, code), h["error"]))
+                    failures.append((shadow_classification(hid[cands[0]], kind, "static+dynamic", inp, code, "differing_resolution"), h["error"]))
             else:
                 ck.disagree(camp, dict(inp, code=code), "static class-scope analysis: no member hides " + h["name"], h["error"])
                 binding_failure("shadowed_name", h["name"], h["where"], h["error"], "dynamic", "member_hides_class", h.get("hider"))
@@ -823,6 +853,12 @@ def oracle_module(ck: Check, camp, inp: dict, code: str, kind: str, executable: 
                 continue
             failures.append((shadow_classification(p, kind, "static", inp, code),
                              f"static class-scope analysis: member {p['name']!r} of {p['cls']} ({p['hider_binding']}) hides the name {p['name']} used by the {p['use_kind']} of {p['cls']}.{p['user']}"))
+    tie = getattr(ck, "tie_cases", None)
+    if tie is not None:
+        dyn = None if obs is None else ("fails" if any(c["seen"].startswith(("dynamic", "static+dynamic")) for c, _ in failures)
+                                        else "stopped_by_other_exception" if any(ev["kind"] != "name_error" for ev in obs["events"]) else "clean")
+        tie.append({"input": {k: inp.get(k) for k in ("document", "model", "opts", "target", "input_file_type")}, "code": code, "kind": kind,
+                    "python": cs.python_problems(static, hid), "dynamic": dyn})
     if not failures and static:
         p = static[0]
         binding_failure(p["mechanism"], p["name"], p["where"], f"static scope analysis: {p['name']} ({p['where']})", "static", p["use"])
@@ -888,6 +924,46 @@ def campaign_hiding(ck: Check, camp, rng: Rng, n: int) -> None:
         doc, inst, feats = schemagen.hiding_document(rng)
         kind = e2e.EXECUTABLE_KINDS[i % 4] if rng.chance(1, 2) else "pydantic_v2.BaseModel"
         e2e_case(ck, camp, doc, kind, dict(rng.choice(HIDE_OPTS)), None, "jsonschema", feats, instance=inst)
+
+
+def campaign_tie(ck: Check) -> None:
+    """Three voices on every emitted module of the e2e campaign: the Lean checker
+    `Model.ClassScope.problems` (proved to decide `WellBound`, Props/C02 `problems_decide_wellBound`) on
+    the module parsed into the model's syntax, the Python scope analyses, and what importing/resolving
+    the module really did."""
+    camp = ck.campaign("classscope.tie: Lean Model.ClassScope.problems on the parsed emitted module vs the Python scope analyses vs the dynamic observation")
+    t0 = time.time()
+    cases = ck.tie_cases
+    reqs, idx = [], []
+    for i, c in enumerate(cases):
+        line = cs.module_sx(c["code"], c["kind"])
+        if line is None:
+            camp.unmodelled += 1
+            camp.hit("statement_form_not_in_model")
+            continue
+        reqs.append(line)
+        idx.append(i)
+    reps = ck.driver.run(reqs) if reqs else []
+    for i, rep in zip(idx, reps):
+        c = cases[i]
+        camp.evaluations += 1
+        lean = cs.lean_problems(rep)
+        if lean is None:
+            ck.infra_errors.append(f"driver reply {rep[:80]!r} for classscope.check")
+            continue
+        camp.hit("kind:" + c["kind"])
+        camp.hit(f"lean:{'well_bound' if not lean else 'problems'}/python:{'well_bound' if not c['python'] else 'problems'}/dynamic:{c['dynamic'] or 'not_executable'}")
+        for p in lean:
+            camp.hit("problem:" + p[0] + (":" + p[4] + ":" + p[5] if p[0] == "hides" else ""))
+        if lean:
+            camp.distinct.add((c["code"], c["kind"]))
+        if lean != c["python"]:
+            ck.disagree(camp, dict(c["input"], code=c["code"]), sorted(lean - c["python"]), sorted(c["python"] - lean))
+        elif c["dynamic"] == "fails" and not lean:
+            ck.disagree(camp, dict(c["input"], code=c["code"]), "well bound", "the import/resolution shows a name-binding failure")
+        elif lean and len(camp.samples) < 2:
+            camp.samples.append({"model": c["kind"], "document": c["input"]["document"], "lean_problems": sorted(map(list, lean))[:4]})
+    camp.wall_s = time.time() - t0
 
 
 SHADOW_OPTS = [{}, {}, {}, {"use_union_operator": True}, {"use_standard_collections": True}, {"use_annotated": True, "field_constraints": True}, {"field_constraints": True},
@@ -1023,6 +1099,7 @@ def known_findings(ck: Check) -> None:
 def run(ck: Check) -> None:
     quick = ck.tier == "quick"
     ck.buckets = Buckets()
+    ck.tie_cases = []
     ck.prove()
     ck.assumptions += [
         "Python's name resolution (module scope, class scope, deferred evaluation of annotations under `from __future__ import annotations`) is the static analysis of vlib/props/c02.py, cross-checked by really importing the module",
@@ -1034,6 +1111,7 @@ def run(ck: Check) -> None:
     campaign_prune(ck, 200 if quick else 3000)
     campaign_type_imports(ck, 800 if quick else 4000, thorough=not quick)
     campaign_e2e(ck, 520 if quick else 3000, 140 if quick else 800, 60 if quick else 300, 80 if quick else 800, 150 if quick else 1500)
+    campaign_tie(ck)
     ck.search_hooks.append(search_after_break)
     known_findings(ck)
     ck.notes["exceptions_not_name_binding"] = {
@@ -1045,13 +1123,22 @@ def run(ck: Check) -> None:
 
 
 def replay(ck: Check, path: str) -> int:
+    """the oracle's own verdict on one recorded input (known findings do not silence it; a failure
+    that a known finding explains is labelled)"""
     data = json.loads(open(path).read())
     inp = data.get("input") or {}
+    findings, ck.findings = ck.findings, []
+    ck.buckets = Buckets()
     camp = ck.campaign("replay")
     if "document" in inp:
         e2e_case(ck, camp, inp["document"], inp["model"], inp.get("opts", {}), inp.get("target"), inp.get("input_file_type", "jsonschema"), instance=inp.get("instance"))
     for f in ck.failures:
-        print("REPLAY-FAILS:", json.dumps(f.classification), f.observed[:300])
+        k = match_finding(findings, f.classification)
+        print("REPLAY-FAILS" + (f" (known finding {k['id']})" if k else "") + ":", json.dumps(f.classification), f.observed[:300])
+    for d in ck.disagreements:
+        print("REPLAY-DISAGREEMENT:", str(d.model)[:200], "|", str(d.impl)[:200])
+    for key, b in ck.buckets.evidence().items():
+        print(f"REPLAY-EXCEPTION-NOT-NAME-BINDING: {key} [{b['disposition']}: {b['owner']}]")
     if not ck.failures:
         print("replay: the oracle does not fail on this input")
-    return 1 if ck.failures else 0
+    return 1 if ck.failures or ck.disagreements else 0
